@@ -12,6 +12,7 @@ import (
 	memdb "git.defalsify.org/vise.git/db/mem"
 	"git.defalsify.org/vise.git/engine"
 	"git.defalsify.org/vise.git/persist"
+	"git.defalsify.org/vise.git/resource"
 	"git.defalsify.org/vise.git/state"
 )
 
@@ -146,6 +147,17 @@ func EngineConfig(c Config) engine.Config {
 	}
 }
 
+// newEngine builds an engine the way the application is configured.
+func (s *Session) newEngine() *engine.DefaultEngine {
+	e := engine.NewEngine(s.Cfg, s.Shared.Resource(s.Rec))
+	if f := s.Shared.App.Cfg.First; f != nil {
+		e = e.WithFirst(func(ctx context.Context, sym string, input []byte) (resource.Result, error) {
+			return resource.Result{Content: f.Content, FlagSet: append([]uint32{}, f.FlagSet...)}, nil
+		})
+	}
+	return e
+}
+
 func NewSession(sh *Shared, mode Mode, storage Storage) *Session {
 	return &Session{Shared: sh, Rec: NewRecorder(), Mode: mode, Storage: storage, Cfg: EngineConfig(sh.App.Cfg)}
 }
@@ -182,7 +194,7 @@ func (s *Session) Request(input []byte) (step Step) {
 			if s.Cfg.CacheSize > 0 {
 				s.Ca = s.Ca.WithCacheSize(s.Cfg.CacheSize)
 			}
-			e := engine.NewEngine(s.Cfg, s.Shared.Resource(s.Rec)).WithState(s.St).WithMemory(s.Ca)
+			e := s.newEngine().WithState(s.St).WithMemory(s.Ca)
 			if s.Mode.Kind == "long+persist" {
 				store, err := s.Storage.Open(ctx)
 				if err != nil {
@@ -201,7 +213,7 @@ func (s *Session) Request(input []byte) (step Step) {
 			return step
 		}
 		pe = persist.NewPersister(store)
-		en = engine.NewEngine(s.Cfg, s.Shared.Resource(s.Rec)).WithPersister(pe)
+		en = s.newEngine().WithPersister(pe)
 	default:
 		panic("unknown mode " + s.Mode.Kind)
 	}
